@@ -170,7 +170,8 @@ def _session(job):
 def _repeat_session(job):
     """several extractions with a callback on ONE read-mode object (reset() in between), then close() under a
     watchdog: every extraction's callback must get a complete account of its own, and close() must return"""
-    path, reps, output, by, delay = job
+    path, reps, output, by, delay = job[:5]
+    quiet = job[5] if len(job) > 5 else ()      # what precedes each callback extraction: "plain" (an extraction without callback), "testzip", "test"
     import py7zr
     from py7zr.callbacks import ExtractCallback
     tmp = tempfile.mkdtemp(prefix="verif_c18r_")
@@ -209,6 +210,15 @@ def _repeat_session(job):
             cbs.append(cb)
             if k:
                 z.reset()
+            pre = quiet[k] if k < len(quiet) else None
+            if pre == "plain":
+                z.extractall(factory=py7zr.io.BytesIOFactory(1 << 24))
+                z.reset()
+            elif pre == "testzip":
+                z.testzip()
+                z.reset()
+            elif pre == "test":
+                z.test()
             if output == "factory":
                 z.extractall(factory=py7zr.io.BytesIOFactory(1 << 24), callback=cb)
             else:
@@ -523,11 +533,14 @@ def run(ctx):
         for arc in arcs[: (6 if ctx.thorough else 3)]:
             for reps in (2, 3):
                 for output in ("factory", "dir"):
-                    rjobs.append((arc["path"], reps, output, rng.choice(["path", "stream"]), rng.choice([0, 0, 0.01])))
+                    rjobs.append((arc["path"], reps, output, rng.choice(["path", "stream"]), rng.choice([0, 0, 0.01]), ()))
+            # calls without a callback (an extraction, testzip(), test()) before the extractions that have one
+            for quiet in (("plain",), (None, "plain"), ("testzip",), ("test", "testzip")):
+                rjobs.append((arc["path"], 2, rng.choice(["factory", "dir"]), rng.choice(["path", "stream"]), 0, quiet))
         rres = sandbox.pmap(_repeat_session, rjobs, timeout=120, workers=8)
-        for (path, reps, output, by, delay), (st, val) in zip(rjobs, rres):
-            conf = {"archive": os.path.basename(path), "extractions": reps, "output": output, "open": by, "handler_delay": delay}
-            ctx.case(key=("repeat", os.path.basename(path), reps, output, by), nontrivial=True, sample=conf)
+        for (path, reps, output, by, delay, quiet), (st, val) in zip(rjobs, rres):
+            conf = {"archive": os.path.basename(path), "extractions": reps, "output": output, "open": by, "handler_delay": delay, "before_each": list(quiet)}
+            ctx.case(key=("repeat", os.path.basename(path), reps, output, by, quiet), nontrivial=True, sample=conf)
             if st != "ok":
                 ctx.fail("C18:repeat_" + st, "a session with %d callback extractions did not complete: %s" % (reps, str(val)[:200]), conf)
                 continue
